@@ -46,7 +46,27 @@ def run_shard(spec, shard):
     if spec.get("mode") == "atheris":
         return accept.run_atheris_grammar(spec, shard, examine, "accepted")
     def body(r):
-        ast, text, used = accept.base_query(r, shard)
+        if r.random() < 0.25:
+            # queries that call functions with LogicalType / NodesType parameters (the probe signatures of C10)
+            from checks import c10
+            chosen = r.sample(sorted(k for k in c10.REG if k.startswith("p")), 6) + ["length", "count"]
+            ast, text, used = accept.base_query(r, shard, registry={k: c10.REG[k] for k in chosen})
+            # damage inside a LogicalType argument: a literal or a bare ValueType call as an operand of && / || / !
+            import re as _re
+            lnames = [k for k in chosen if c10.REG[k]["params"] and c10.REG[k]["params"][0] == "Logical"]
+            spots = [m.end() for m in _re.finditer(r"\b(" + "|".join(map(_re.escape, lnames)) + r")\(", text)] if lnames else []
+            for at in spots[:2]:
+                ins = r.choice(["1 && ", "!1 || ", "'x' || ", "null && ", "length(@.a) && ", "!length(@) || ", "true && ", "(1) || "])
+                _one(shard, text[:at] + ins + text[at:], True, ["edit:operand-inside-logical-argument"])
+            if not spots and lnames:
+                nm = r.choice(lnames)
+                arity = len(c10.REG[nm]["params"])
+                if arity == 1:
+                    for ins in r.sample(["1 && @.a", "!1", "@.a || 'x'", "!length(@.a)", "(@.a) && 2", "@.a && !null"], 2):
+                        q = "$[?%s(%s)%s]" % (nm, ins, " == 1" if c10.REG[nm]["ret"] == "Value" else "")
+                        _one(shard, q, True, ["edit:operand-inside-logical-argument"])
+        else:
+            ast, text, used = accept.base_query(r, shard)
         for _ in range(4):
             m, kinds = M.mutant(text, r)
             _one(shard, m, True, ["edit:" + k for k in kinds])
